@@ -2,7 +2,6 @@ package rzset
 
 import (
 	"database/sql"
-	"slices"
 	"strings"
 	"time"
 
@@ -21,14 +20,7 @@ const (
 	sqlInterStore1 = sqlDeleteAll1
 	sqlInterStore2 = sqlDeleteAll2
 	sqlInterStore3 = sqlAdd1
-	sqlInterStore4 = `
-	insert into rzset (kid, elem, score)
-	select ?, elem, sum(score) as score
-	from rzset join rkey on kid = rkey.id and type = 5
-	where key in (:keys) and (etime is null or etime > ?)
-	group by elem
-	having count(distinct kid) = ?
-	order by sum(score), elem`
+	sqlInterStore4 = sqlAdd2
 )
 
 // InterCmd intersects multiple sets.
@@ -141,10 +133,17 @@ func (c InterCmd) run(tx sqlx.Tx) ([]SetItem, error) {
 
 // store intersects multiple sets and stores the result in a new set.
 func (c InterCmd) store(tx sqlx.Tx) (int, error) {
+	// The destination may be one of the source sets,
+	// so the result is computed before the destination is emptied.
+	items, err := c.run(tx)
+	if err != nil {
+		return 0, err
+	}
+
 	now := time.Now().UnixMilli()
 
 	// Delete the destination key if it exists.
-	_, err := tx.Exec(sqlInterStore1, c.dest, now)
+	_, err = tx.Exec(sqlInterStore1, c.dest, now)
 	if err != nil {
 		return 0, err
 	}
@@ -160,19 +159,13 @@ func (c InterCmd) store(tx sqlx.Tx) (int, error) {
 		return 0, sqlx.TypedError(err)
 	}
 
-	// Intersect the source sets and store the result.
-	query := sqlInterStore4
-	if c.aggregate != sqlx.Sum {
-		query = strings.Replace(query, sqlx.Sum, c.aggregate, 2)
-	}
-	query, keyArgs := sqlx.ExpandIn(query, ":keys", c.keys)
-	args := slices.Concat([]any{destID}, keyArgs, []any{now, sqlx.CountDistinct(c.keys)})
-	res, err := tx.Exec(query, args...)
-	if err != nil {
-		return 0, err
+	// Store the result.
+	for _, it := range items {
+		_, err = tx.Exec(sqlInterStore4, destID, it.Elem.Bytes(), it.Score)
+		if err != nil {
+			return 0, err
+		}
 	}
 
-	// Return the number of elements in the resulting set.
-	n, _ := res.RowsAffected()
-	return int(n), nil
+	return len(items), nil
 }
